@@ -197,19 +197,28 @@ package mysql
 //@   ensures err != nil ==> data == nil && k == 0
 //@   modifies nothing
 
+// Every column of a row is decided on its own: the subscribers see the row's context (never the context another column
+// returned - that one carries the other column's "decrypted" / "conversion failed" marks), the column's own description,
+// its own bytes and the result format of this protocol; the type rollback looks at the context this column returned.
 //@ func (handler *Handler) processBinaryDataRow(ctx context.Context, rowData []byte, fields []*ColumnDescription) (out []byte, err error)
-//@   props C12 C14
+//@   props C12 C14 C19
 //@   safety
 //@   noinline extractData onColumnDecryption
 //@   requires len(rowData) >= 1 && forall(j, 0, len(fields), fields[j] != nil)
 //@   loop 0 invariant 0 <= pos && pos <= len(rowData)
 //@   ensures err != nil ==> out == nil
+//@   at call Handler.onColumnDecryption : assert per-column-decision: arg[0] == ctx && 0 <= arg[1] && arg[1] < len(fields) && arg[4] == fields[arg[1]] && arg[3] == true && sameslice(arg[2], ret(Handler.extractData)[0])
+//@   at call Handler.extractData : assert arg[0] == pos && sameslice(arg[1], rowData)
+//@   at call base.IsErrorConvertedDataTypeFromContext : assert arg[0] == ret(Handler.onColumnDecryption)[0]
 
 //@ func (handler *Handler) processTextDataRow(ctx context.Context, rowData []byte, fields []*ColumnDescription) (out []byte, err error)
-//@   props C12 C14
+//@   props C12 C14 C19
 //@   safety
 //@   noinline onColumnDecryption
 //@   requires forall(j, 0, len(fields), fields[j] != nil)
+//@   at call Handler.onColumnDecryption : assert per-column-decision: arg[0] == ctx && 0 <= arg[1] && arg[1] < len(fields) && arg[4] == fields[arg[1]] && arg[3] == false && sameslice(arg[2], ret(base.LengthEncodedString)[0])
+//@   at call base.LengthEncodedString : assert sameslice(arg[0], rowData[pos:])
+//@   at call base.IsErrorConvertedDataTypeFromContext : assert arg[0] == ret(Handler.onColumnDecryption)[0]
 //@   loop 0 invariant 0 <= pos && pos <= len(rowData)
 //@   ensures err != nil ==> out == nil
 
